@@ -1,11 +1,16 @@
 """C02 — program-level pipeline check (DESIGN.md §3 C02): theorems of Props/C02.lean, T1 dispatch tables, T2 kernel skeletons,
 T3 differential of harness/pipe.cpp (real library) against the Lean mechanism `mech` and the sequential reading `spec`."""
+from vlib import apiprobe
 from vlib import pipecheck
 
 
 def run(res, tier):
+    apiprobe.stage(res, 'C02', tier)  # every public form of the pipeline / async API still instantiates (vlib/apiprobe.py)
     pipecheck.run(res, 'C02', tier)
 
 
 def replay(path):
+    r = apiprobe.replay(path)
+    if r is not None:
+        return r
     return pipecheck.replay('C02', path)
